@@ -51,9 +51,9 @@ def is_head(o):
     return pc_truth(o, lambda a: a == ('bin', 'Eq', ('field', SELF, 'ax'), ('lit', 0)))
 
 def result_class(o, res):
-    err = pc_truth(o, lambda a: a == ('is', res, 'Err'))
+    err = absx.pc_variant(o.st.pc, lambda v: v == res, 'Err')
     okk = pc_truth(o, lambda a: a == ('is', res, 'Ok'))
-    none = pc_truth(o, lambda a: a == ('is', ('variant', res, 'Ok', 0), 'None'))
+    none = absx.pc_variant(o.st.pc, lambda v: v == ('variant', res, 'Ok', 0), 'None')
     if err is True or okk is False:
         return 'Err'
     if none is True:
@@ -135,7 +135,7 @@ def run(ctx):
         want = 'start_inner' if inner else 'start'
         ctx.add('Q1.start.callee', 'innermost=%s' % inner, loc(call[3]), call[1].rsplit('::', 1)[-1] == want and (inner or 'Adapter' in call[1]), 'wrong callee %s' % call[1])
         res = o.val
-        err = pc_truth(o, lambda a: a == ('is', res, 'Err')) is True or pc_truth(o, lambda a: a == ('is', res, 'Ok')) is False
+        err = absx.pc_variant(o.st.pc, lambda v: v == res, 'Err') is True or pc_truth(o, lambda a: a == ('is', res, 'Ok')) is False
         exp = 'Error' if err else 'Fresh'
         seen.add((inner, err))
         ctx.add('Q1.start.transition', 'innermost=%s|err=%s' % (inner, err), loc(S.root), final_state(o) == exp,
